@@ -35,6 +35,15 @@ def run(ctx):
         wl2 = dict(wl)
         wl2.update(len=rng.choice([1, 2]), cap=rng.choice(["all", "random", "one", "first"]))
         scen.append(dict(kind="wl", wl=wl2, maxTrials=0, failRateOne=0, mode="tree", paths=0, maxLeaves=3000, tag="ctor-generate", reps=0))
+    # construction only (nothing generated): lists containing the empty string next to twins, and long lists (> 4096 entries,
+    # like the shipped ones) whose duplicates and twins lie far apart
+    special = [["", "polish", "Polish"], ["école", "", "École"], ["", "one"], ["", "", "a", "A"], ["one", ""]]
+    filler = ["w%05d" % i for i in range(4300 if quick else 9000)]
+    special.append(["Polish"] + filler + ["polish"])
+    special.append(["polish", "zebra"] + filler + ["Polish", "zebra", "Zebra"])
+    for ws in special:
+        wl = dict(words=[wlfam.o(w) for w in ws], nolist=0, len=2, cap="none", sep="char", sepChar=wlfam.o("-"))
+        scen.append(dict(kind="wl", wl=wl, maxTrials=0, failRateOne=0, mode="paths", paths=0, maxLeaves=0, tag="ctor-special", reps=3 if len(ws) > 100 else 200))
     scen.append(dict(kind="wl", wl=dict(words=[], nolist=0, len=2, cap="none", sep="char", sepChar=[]), maxTrials=0, failRateOne=0, mode="paths", paths=1,
                      maxLeaves=0, tag="empty-input", reps=0))
     files, cells, leaves = wlfam.run_scenarios(ctx, scen, "c10")
@@ -43,7 +52,7 @@ def run(ctx):
     verdicts, decided = wlfam.validate(ctx, files)
     ctx.evaluations = sum(s["reps"] for s in scen) + leaves
     ctx.nontrivial = wlfam.count_cells(files, lambda c: c["ctorErr"] == 0 and len(c["kept"]) < len(c["wl"]["words"]))
-    ctx.cover.update(lists=len(scen) // 2, constructions=sum(s["reps"] for s in scen), generate_runs=leaves)
+    ctx.cover.update(lists=(len(scen) - len(special)) // 2 + len(special), long_lists=2, constructions=sum(s["reps"] for s in scen), generate_runs=leaves)
     ctx.sample(vlib.nth_line(files[0], 1))
     ctx.absorb(verdicts, files, wlfam.describe_wl)
     ctx.assumptions += ["real iteration orders are sampled by repeated construction (each range loop starts at a random offset); all orders are explored in the model only",
